@@ -21,6 +21,8 @@ class Strip(ast.NodeTransformer):
         return node
 
 
+if __name__ != "__main__":
+    sys.argv = sys.argv[:1]
 m = Model()
 facts = {}
 args = sys.argv[1:]
